@@ -44,7 +44,8 @@ def _guard(fn, *args):
         raise HarnessBug(f"{type(e).__name__}: {e} in simulator callback {getattr(fn, '__name__', fn)}") from e
 
 
-EOF_READ_BUDGET = 8          # a correct framer needs one or two reads at EOF; the 9th is fatal
+EOF_READ_BUDGET = 8          # reads at end-of-stream without any progress in between; the 9th is fatal. The consumer loop
+                             # resets the count whenever an item is yielded (a framer may poll EOF once per packet)
 
 
 class World:
@@ -129,7 +130,7 @@ class World:
 class Pipe:
     """Reliable ordered byte pipe (what TCP gives the receiver)."""
 
-    __slots__ = ("world", "buf", "fin", "err", "eof_reads", "delivered", "name")
+    __slots__ = ("world", "buf", "fin", "err", "eof_reads", "delivered", "name", "eof_budget")
 
     def __init__(self, world, name="pipe"):
         self.world = world
@@ -139,6 +140,7 @@ class Pipe:
         self.eof_reads = 0
         self.delivered = 0
         self.name = name
+        self.eof_budget = EOF_READ_BUDGET
 
     def deliver(self, data, who="producer"):
         if self.fin or self.err is not None:
@@ -186,7 +188,10 @@ class SimSocket(socket.socket):
         p = self._pipe
         self.recv_calls += 1
         if bufsize is None or bufsize < 0:
-            raise ValueError("negative buffersize in recv")
+            e_ = ValueError("negative buffersize in recv") if bufsize is not None else TypeError(
+                "'NoneType' object cannot be interpreted as an integer")
+            e_.sim_injected = True          # what a real socket answers: attributable to the caller, not to the harness
+            raise e_
         peek = bool(flags & socket.MSG_PEEK)
         waitall = bool(flags & socket.MSG_WAITALL)
         if flags & ~(socket.MSG_PEEK | socket.MSG_WAITALL):
@@ -217,7 +222,7 @@ class SimSocket(socket.socket):
             if p.fin:
                 p.eof_reads += 1
                 w.ev(self._name, "recv_eof", p.eof_reads)
-                if p.eof_reads > EOF_READ_BUDGET:
+                if p.eof_reads > p.eof_budget:
                     raise LivenessViolation(
                         f"recv() called {p.eof_reads} times after the peer closed the connection")
                 return b""
@@ -311,6 +316,7 @@ class SimRaw(io.RawIOBase):
         self._name = name
         self.calls = 0
         self.eof_reads = 0
+        self.eof_budget = EOF_READ_BUDGET     # reads at end-of-file WITHOUT progress in between (the consumer resets the count)
         self.raised = None
 
     def readable(self):
@@ -321,13 +327,17 @@ class SimRaw(io.RawIOBase):
 
     def tell(self):
         if not self._seekable:
-            raise io.UnsupportedOperation("underlying stream is not seekable")
+            e_ = io.UnsupportedOperation("underlying stream is not seekable")
+            e_.sim_injected = True          # what a real pipe answers
+            raise e_
         return self._pos
 
     def seek(self, offset, whence=0):
         if not self._seekable:
             self._w.ev(self._name, "seek_refused")
-            raise io.UnsupportedOperation("underlying stream is not seekable")
+            e_ = io.UnsupportedOperation("underlying stream is not seekable")
+            e_.sim_injected = True
+            raise e_
         if whence == 0:
             self._pos = offset
         elif whence == 1:
@@ -351,7 +361,7 @@ class SimRaw(io.RawIOBase):
         if possible <= 0:
             self.eof_reads += 1
             self._w.ev(self._name, "read_eof", self.eof_reads)
-            if self.eof_reads > EOF_READ_BUDGET:
+            if self.eof_reads > self.eof_budget:
                 raise LivenessViolation(
                     f"read() reached the raw device {self.eof_reads} times at end-of-file")
             return 0
